@@ -740,6 +740,8 @@ def array_ufunc(ufunc, method, inputs, kwargs):
                 if o.dtype != object and isinstance(res, np.ndarray) and has_sym(res):
                     raise Unsupported("in-place ufunc result does not fit a numeric array")
                 o_plain = o.view(np.ndarray)
+                if np.shape(res) != o_plain.shape and np.broadcast_shapes(np.shape(res), o_plain.shape) != o_plain.shape:
+                    raise ValueError(f"non-broadcastable output operand with shape {o_plain.shape} doesn't match the broadcast shape {np.shape(res)}")
                 o_plain[...] = res
                 return o
         tag = None
